@@ -13,6 +13,8 @@ name = sys.argv[2] if len(sys.argv) > 2 else src.name
 wt = Path(f"/tmp/wt_confirm_{name}")
 head = subprocess.run(["git", "-C", "/repo", "rev-parse", "--short", "HEAD"], capture_output=True, text=True).stdout.strip()
 subprocess.run(["git", "-C", "/repo", "worktree", "remove", "--force", str(wt)], capture_output=True)
+shutil.rmtree(wt, ignore_errors=True)
+subprocess.run(["git", "-C", "/repo", "worktree", "prune"], capture_output=True)
 subprocess.run(["git", "-C", "/repo", "worktree", "add", "-q", "--detach", str(wt), "HEAD"], check=True)
 rec = {"repo_head": head, "date": time.strftime("%Y-%m-%d %H:%M")}
 ok = False
